@@ -282,10 +282,10 @@ pub fn run(cfg: &Cfg) -> (Log, Meta) {
     Ok(l) if l == (2024, 1, 1) => {}
     other => log.violate("C02/after-refusals/2024-02-10".into(), "get_lunar_day after refused requests", "2024-02-10".into(), format!("{:?}", other), "lunar 2024-01-01".into()),
   }
-  log.floor("solar.leap_month_days_converted", 90_000);
-  log.floor("solar.month_boundary_transitions", 120_000);
+  log.floor("solar.leap_month_days_converted", 50_000);
+  log.floor("solar.month_boundary_transitions", 100_000);
   log.floor("solar.year_boundary_transitions", 9_900);
-  log.floor("order.pairs_with_a_leap_twin", 90_000);
+  log.floor("order.pairs_with_a_leap_twin", 50_000);
   log.floor("lunar.days_round_tripped", cfg.tier.pick(400_000, 3_600_000));
   log.floor("lunar.refusals_checked", cfg.tier.pick(50_000, 400_000));
   let meta = Meta {
